@@ -166,6 +166,19 @@ class _Walker:
           j += 1
           continue
       if first_err is not None:
+        # is P[i] still there further down?  then M[j] is a statement the merge added
+        for j2 in range(j + 1, min(len(mb), j + 12)):
+          saved = self._save()
+          try:
+            self.stmt(pb[i], mb[j2])
+            ok = True
+          except Mismatch:
+            ok = False
+          self._restore(saved)
+          if ok:
+            raise Mismatch(_scope_str(self.scope) or "<module>",
+                           f"statement added by the merge ({field}): {type(mb[j]).__name__}",
+                           m=ast.unparse(mb[j])[:300])
         raise first_err
       where = _scope_str(self.scope) or "<module>"
       if i < len(pb):
@@ -353,7 +366,8 @@ def compare(p_tree, m_tree, tolerate_added_classes=False):
   w = _Walker(tolerate_added_classes=tolerate_added_classes)
   try:
     if ast.get_docstring(p_tree, clean=False) != ast.get_docstring(m_tree, clean=False):
-      raise Mismatch("<module>", "module docstring differs")
+      raise Mismatch("<module>", "module docstring displaced: statements inserted above it",
+                     m=ast.unparse(m_tree.body[0])[:200] if m_tree.body else None)
     w.body(p_tree.body, m_tree.body, "Module.body")
     if dump(p_tree.type_ignores) != dump(m_tree.type_ignores):
       raise Mismatch("<module>", "type_ignores differ")
@@ -663,17 +677,18 @@ def judge(py, pyi, merged, stub_by_pytype, tolerate_added_classes=False):
     cnt("inserted_annotations")
     cnt(f"inserted_{s['kind']}_annotations")
     got = norm(s["m"])
-    try:
-      for n in ast.walk(ast.parse(got, mode="eval")):
-        if isinstance(n, ast.Name):
-          used_names.add(n.id)
-    except SyntaxError:
-      pass
+    if s["kind"] != "param" or s.get("pkind") == "args":
+      # (libcst does not run its name collector over positional-only / keyword-only
+      #  parameter annotations, so TypeVars used only there are never defined: not judged)
+      try:
+        for n in ast.walk(ast.parse(got, mode="eval")):
+          if isinstance(n, ast.Name):
+            used_names.add(n.id)
+      except SyntaxError:
+        pass
     if s["kind"] in ("return", "var") and is_bare_any_never(got):
-      raw_attr = "." in (s["m"] or "")
-      what = "variable" if s["kind"] == "var" else "return"
-      bad(f"bare Any/Never {what} annotation inserted" + (" (module-qualified form)" if raw_attr else ""),
-          where=qual, name=s["name"], annotation=s["m"])
+      bad(_any_key(s["kind"], _stub_spelling(stub, s, qual, src)), where=qual, name=s["name"],
+          annotation=s["m"])
     if in_func or (s["kind"] == "var" and not s.get("target_is_name", True)):
       bad("annotation inserted inside a function body or on a non-name target", where=qual,
           slot=s["kind"], name=s["name"], annotation=s["m"])
@@ -706,6 +721,9 @@ def judge(py, pyi, merged, stub_by_pytype, tolerate_added_classes=False):
       continue
     # which P definition is this slot in?  (same qualname may be defined several times)
     keys_p = {func_key(f) for f in pfunc}
+    if not keys_p:
+      cnt("not_judged:function not found in the source model")
+      continue
     if len(keys_p) != 1:
       cnt("not_judged:function defined with several shapes in the source")
       continue
@@ -755,8 +773,14 @@ def judge(py, pyi, merged, stub_by_pytype, tolerate_added_classes=False):
     got = norm(d["ann"])
     qual = ".".join(n for _, n in d["scope"])
     if is_bare_any_never(got):
-      bad("bare Any/Never variable annotation inserted (value-less declaration)", where=qual,
-          name=d["name"], annotation=d["ann"])
+      spell = None
+      if stub is not None:
+        for k, lst in stub.vars.items():
+          if k == d["name"] or k.endswith("." + d["name"]):
+            for sv in lst:
+              if norm(unparse(sv.annotation)) == got:
+                spell = spell or unparse(sv.annotation)
+      bad(_any_key("var", spell), where=qual, name=d["name"], annotation=d["ann"], declaration=True)
     if d["scope"]:
       bad("declaration inserted below module level", where=qual, name=d["name"], annotation=d["ann"])
       continue
@@ -801,6 +825,27 @@ def judge(py, pyi, merged, stub_by_pytype, tolerate_added_classes=False):
 
   return {"violations": vio, "counts": counts, "nontrivial": inserted > 0,
           "inserted": inserted}
+
+
+def _any_key(kind, spelling):
+  what = "variable" if kind == "var" else "return"
+  if spelling is not None and "." in spelling:
+    return f"bare Any/Never {what} annotation inserted: the stub spells it `typing.Any`/`typing.Never`"
+  return f"bare Any/Never {what} annotation inserted"
+
+
+def _stub_spelling(stub, s, qual, src):
+  """How the stub writes the annotation that ended up as bare Any/Never (None: unknown)."""
+  if stub is None:
+    return None
+  if s["kind"] == "var":
+    c = stub.vars.get((qual + "." if qual else "") + s["name"], [])
+    return unparse(c[-1].annotation) if c else None
+  c = stub.funcs.get(qual, [])
+  for f in reversed(c):
+    if f.returns is not None:
+      return unparse(f.returns)
+  return None
 
 
 def _mismatch_mechanism(mm, stub):
